@@ -142,9 +142,12 @@ def unq(s):
     return json.loads('"' + s + '"')
 
 
-def validate_trace(work, trace_path, cfg="TraceApi.cfg", module="TraceApi", timeout=1800, heap="6g"):
+def validate_trace(work, trace_path, cfg="TraceApi.cfg", module="TraceApi", timeout=1800, heap="6g", trace_b=None):
     """TLC trace validation of one NDJSON trace; returns dict(fails=[...], events, conjuncts, states, transitions)"""
-    rc, out, gen, dist = tlc(work, module, cfg, workers=1, timeout=timeout, env_extra={"VERIF_TRACE": trace_path}, heap=heap)
+    envx = {"VERIF_TRACE": trace_path}
+    if trace_b:
+        envx["VERIF_TRACE_B"] = trace_b
+    rc, out, gen, dist = tlc(work, module, cfg, workers=1, timeout=timeout, env_extra=envx, heap=heap)
     fails, stats, done = [], None, None
     for line in out.splitlines():
         m = VFAIL.match(line)
